@@ -13,7 +13,7 @@
 """
 from .. import terms as T
 from ..terms import const
-from ..rules import P_, run, ret_paths, raise_paths, exc_name, bind_call_args, default_of
+from ..rules import P_, run, ret_paths, raise_paths, exc_name, bind_call_args, default_of, elem_of_comp, cond_paths
 from ..loader import AnalysisError
 
 EXPLANATION = (
@@ -216,7 +216,7 @@ def rule_reduce_axis(ctx):
                 item = arr[1]
                 ax = T.kw(c, 'axis')
                 ipos = ('item', ('call', ('attr', item, '_get_axis_info'), (name,), ()), 0)
-                alts = T.strip_phi(ax)
+                alts = T.value_alts(ax)
                 if ax == dpos or dpos in alts:
                     ctx.violated('R2', fi, e.node, 'the position of the dimension is taken from the *dataset* axes and applied to the variable\'s values: a variable that '
                                  'holds the dimension at another position is transformed along the wrong axis', node=e.node)
@@ -253,8 +253,8 @@ def rule_reduce_axis(ctx):
                     okg = True
                 # ... or one store for both cases, whose value is either the rebuilt variable or the variable itself (a helper that returns `item` when the
                 # dimension is missing)
-            if e.kind == 'store_sub' and e.loops and e.a[0] in ('call', 'mut', 'phi') and isinstance(e.c, tuple) and e.c[0] == 'phi':
-                alts = T.strip_phi(e.c)
+            if e.kind == 'store_sub' and e.loops and e.a[0] in ('call', 'mut', 'phi') and isinstance(e.c, tuple) and e.c[0] in ('phi', 'ifexp'):
+                alts = T.value_alts(e.c)
                 if any(x[0] == 'sub' and x[1] == SELF and x[2] == e.b for x in alts) and any(x[0] == 'call' and T.dotted(x[1]) == 'DimArray' for x in [strip(y) for y in alts]):
                     okg = True
     if okp:
@@ -512,6 +512,16 @@ def rule_reindex(ctx):
             got = dict(c[3])
             bad = [k for k, v in want.items() if got.get(k) != v]
             recv = T.call_receiver(c)
+            guards = list(e.guards)
+            eoc = elem_of_comp(recv)
+            if eoc is not None:
+                # the variables to fill were listed first ([dataset[k] for k in ... if <has the dimension>]): the element and its filter are read from the list
+                recv = eoc[0]
+                for cnd in eoc[1]:
+                    for g_, truth_ in cond_paths(cnd):
+                        if truth_:
+                            guards.extend(g_)
+                            break
             if not c[2] or not any(c[2][0] == m or T.show(c[2][0]) == T.show(m) for m in masks):
                 bad.append('mask')
             if c[2][1:2] != (FILL,):
@@ -533,7 +543,7 @@ def rule_reindex(ctx):
                 ctx.violated('R6', fi, 'fill receiver', 'the in-place fill acts on the variables of the fresh result', node=e.node)
                 okk = False
             k = recv[2] if recv[0] == 'sub' else None
-            has = [(a, pol) for a, pol in e.guards if a[0] == 'cmp' and a[1] == 'in' and 'dims' in T.show(a[3]) and _is_dim_name(a[2])]
+            has = [(a, pol) for a, pol in guards if a[0] == 'cmp' and a[1] == 'in' and 'dims' in T.show(a[3]) and _is_dim_name(a[2])]
             if not has or has[-1][1] is not True:
                 ctx.violated('R2', fi, 'fill loop guard', 'the fill loop applies put(..., axis=...) to every variable: variables that do not have the reindexed dimension must be '
                              'skipped (ValueError otherwise)', node=e.node)
